@@ -185,7 +185,7 @@ def record_ciq(sc):
     rhs = torch.randn(*obatch, n, max(1, c), generator=g, dtype=torch.float64).to(dtype)
     lhs = torch.randn(*batch, 2, n, generator=g, dtype=torch.float64).to(dtype)
     r64, l64 = rhs.to(torch.float64), lhs.to(torch.float64)
-    fin = dict(shape_ok=True, finite=True, invsqrt=NA, sqrt=NA, twice=NA, left=NA, leftdiag=NA, noshift=NA, gram=NA)
+    fin = dict(shape_ok=True, finite=True, invsqrt=NA, sqrt=NA, twice=NA, left=NA, leftdiag=NA, noshift=NA, gram=NA, gramsqrt=NA)
     rel = lambda X, Y: lg((X.to(torch.float64) - Y).norm() / Y.norm().clamp_min(1e-300))
     try:
         with contextlib.ExitStack() as st, warnings.catch_warnings():
@@ -214,6 +214,10 @@ def record_ciq(sc):
                 solves, weights, _, _ = contour_integral_quad(op, eye, inverse=True, num_contour_quadrature=sc["Q"])
                 M = (solves * weights).sum(0).to(torch.float64)
                 fin["gram"] = rel(M @ M.mT, Kinv)
+                # ... and the forward quadrature (inverse=False, what contour-integral sampling uses) is a root of K itself
+                solves, weights, _, _ = contour_integral_quad(op, eye, inverse=False, num_contour_quadrature=sc["Q"])
+                M2 = (solves * weights).sum(0).to(torch.float64)
+                fin["gramsqrt"] = rel(M2 @ M2.mT, K64)
             # public entry point
             rarg = rhs[..., 0] if (c == 0 and not batch) else rhs
             once = op.sqrt_inv_matmul(rarg)
@@ -336,7 +340,7 @@ def run(tier, seed):
     c1 = json.loads(json.dumps(good)); c1["tid"] = 900001; c1["runs"][3]["res"] = -1000
     c2 = json.loads(json.dumps(good)); c2["tid"] = 900002; c2["final"]["err"] = -2000
     g2 = dict(kind="ciq", tid=900003, cfg=dict(n=4, f32=False, tight=True), runs=[],
-              final=dict(shape_ok=True, finite=True, invsqrt=-30000, sqrt=-30000, twice=-30000, left=-30000, leftdiag=-30000, noshift=-30000, gram=-30000))
+              final=dict(shape_ok=True, finite=True, invsqrt=-30000, sqrt=-30000, twice=-30000, left=-30000, leftdiag=-30000, noshift=-30000, gram=-30000, gramsqrt=-30000))
     c3 = json.loads(json.dumps(g2)); c3["tid"] = 900004; c3["final"]["gram"] = -1000
     tr, verdicts = validate(traces + [good, c1, c2, g2, c3], tier)
     res.add_tlc("Trace_C11", tr)
